@@ -73,28 +73,28 @@ var execInitPkgs = map[string]bool{
 
 func main() {
 	var (
-		dir       = flag.String("dir", "/verif/harness", "harness module directory")
-		overlay   = flag.String("overlay", "", "overlay JSON ({\"Replace\":{virtual:real}})")
-		out       = flag.String("out", "", "result JSON path (default stdout)")
-		solverBin = flag.String("solver", "z3-new", "solver binary")
-		timeoutMs = flag.Int("timeout-ms", 20000, "per-query timeout")
-		unwind    = flag.Int("unwind", 64, "per-frame visits of a symbolic branch")
-		allocLim  = flag.Uint64("alloc-limit", 0, "make([]byte) size treated as an allocation outcome (0 = off)")
-		maxPaths  = flag.Int("max-paths", 0, "stop after this many paths (0 = unlimited); stopping early is reported as non-exhaustive")
-		budgetS   = flag.Int("budget-s", 0, "time budget per harness in seconds (0 = none)")
-		preempt   = flag.Int("preempt", 0, "pre-emption budget per path")
-		nTraces   = flag.Int("traces", 50, "number of passing paths whose models are emitted for native validation")
-		traceEv   = flag.Int("trace-every", 1, "emit a trace for every k-th passing path")
-		smtLog    = flag.String("smt-log", "", "write solver input to this file")
-		raceFlag  = flag.Bool("race", false, "happens-before data-race detection in goroutine mode")
-		poolAdv   = flag.Bool("pool-adversarial", false, "sync.Pool.Get may return any pooled object or a fresh one")
-		verbose   = flag.Bool("v", false, "verbose")
-		jobsFile  = flag.String("jobs", "", "JSON list of harness jobs (per-harness options)")
+		dir        = flag.String("dir", "/verif/harness", "harness module directory")
+		overlay    = flag.String("overlay", "", "overlay JSON ({\"Replace\":{virtual:real}})")
+		out        = flag.String("out", "", "result JSON path (default stdout)")
+		solverBin  = flag.String("solver", "z3-new", "solver binary")
+		timeoutMs  = flag.Int("timeout-ms", 20000, "per-query timeout")
+		unwind     = flag.Int("unwind", 64, "per-frame visits of a symbolic branch")
+		allocLim   = flag.Uint64("alloc-limit", 0, "make([]byte) size treated as an allocation outcome (0 = off)")
+		maxPaths   = flag.Int("max-paths", 0, "stop after this many paths (0 = unlimited); stopping early is reported as non-exhaustive")
+		budgetS    = flag.Int("budget-s", 0, "time budget per harness in seconds (0 = none)")
+		preempt    = flag.Int("preempt", 0, "pre-emption budget per path")
+		nTraces    = flag.Int("traces", 50, "number of passing paths whose models are emitted for native validation")
+		traceEv    = flag.Int("trace-every", 1, "emit a trace for every k-th passing path")
+		smtLog     = flag.String("smt-log", "", "write solver input to this file")
+		raceFlag   = flag.Bool("race", false, "happens-before data-race detection in goroutine mode")
+		poolAdv    = flag.Bool("pool-adversarial", false, "sync.Pool.Get may return any pooled object or a fresh one")
+		verbose    = flag.Bool("v", false, "verbose")
+		jobsFile   = flag.String("jobs", "", "JSON list of harness jobs (per-harness options)")
 		flatSolver = flag.String("flat-solver", "", "solver for one-shot re-decisions (default: same as -solver; cvc5 = integer encoding of bit-vectors)")
 		incTimeout = flag.Int("inc-timeout-ms", 2500, "time slice of the incremental solver before a query is re-decided one-shot")
-		pkgs      multiFlag
-		harnesses multiFlag
-		paramFl   multiFlag
+		pkgs       multiFlag
+		harnesses  multiFlag
+		paramFl    multiFlag
 	)
 	flag.Var(&pkgs, "pkg", "package pattern to load (repeatable)")
 	flag.Var(&harnesses, "harness", "pkgpath.Func entry (repeatable)")
@@ -275,19 +275,19 @@ func fatal(f string, a ...interface{}) {
 }
 
 type runOpts struct {
-	solver     string
-	timeoutMs  int
-	unwind     int
-	allocLimit uint64
-	maxPaths   int
-	budgetS    int
-	preempt    int
-	nTraces    int
-	traceEvery int
-	smtLog     string
-	verbose    bool
-	noSummaries bool
-	race        bool
+	solver       string
+	timeoutMs    int
+	unwind       int
+	allocLimit   uint64
+	maxPaths     int
+	budgetS      int
+	preempt      int
+	nTraces      int
+	traceEvery   int
+	smtLog       string
+	verbose      bool
+	noSummaries  bool
+	race         bool
 	incTimeoutMs int
 	flatSolver   string
 }
